@@ -148,6 +148,7 @@ func H_C08_Process() {
 	s := st.s
 	if verifParam("FAULTS") == 1 {
 		verifFSFaults(true)
+		s.f = verifPlantPersistentWriteFault(st.actName, s.f)
 	}
 	data := nondetText()
 	e := &Event{Type: "t", Formatted: map[string][]byte{}}
